@@ -856,7 +856,8 @@ func (g *vcgen) libFacts(v ssa.Value) {
 func vcVariants(ins ssa.Instruction, depth int) (out [][3]interface{}, ok bool) {
 	f := ins.Parent()
 	internal := func(f *ssa.Function) bool {
-		return f != nil && f.Parent() == nil && !token.IsExported(f.Name()) && !vcValueUse[f] && len(vcCallers[f]) > 0 && !dynamicallyCallable(f)
+		// a function literal qualifies when its value is used for nothing but being called (then its call sites are known)
+		return f != nil && (f.Parent() != nil || !token.IsExported(f.Name())) && !vcValueUse[f] && len(vcCallers[f]) > 0 && !dynamicallyCallable(f)
 	}
 	if !internal(f) {
 		return nil, false
